@@ -46,10 +46,11 @@ type tr2 struct {
 	params  []string          // its parameters (binders) and their names, for the loop definitions
 	pnames  []string
 	usesFuel bool
+	noResult string // a function without results evaluates to the tuple of what it assigns
 }
 
 var leanTypeOfKind = map[string]string{"ents": "List Entry", "omap": "List Entry", "int": "Int", "cids": "List Hash",
-	"set": "List Hash", "smap": "List (Hash × Hash)", "entry": "Entry", "hash": "Hash", "bool": "Bool", "bytes": "Bytes", "key": "Entry", "log": "Unit"}
+	"set": "List Hash", "smap": "List (Hash × Hash)", "entry": "Entry", "hash": "Hash", "bool": "Bool", "bytes": "Bytes", "key": "Entry", "log": "Unit", "queue": "Q", "optentry": "Option Entry"}
 
 func (t *tr2) fail(n ast.Node, why string) string {
 	t.errs = append(t.errs, fmt.Sprintf("%s: %s", why, src(t.fset, n)))
@@ -85,6 +86,10 @@ func kindOfType(e ast.Expr) string {
 		switch typeString(e) {
 		case "*IPFSLog":
 			return "log"
+		case "processQueue":
+			return "queue"
+		case "context.Context":
+			return "ctx"
 		case "iface.IPFSLogOrderedEntries":
 			return "omap"
 		case "int":
@@ -113,6 +118,9 @@ func zeroOfKind(k string) string {
 }
 
 func leanName(s string) string {
+	if i := strings.Index(s, "."); i > 0 {
+		return s[:i] + strings.ToUpper(s[i+1:i+2]) + s[i+2:]
+	}
 	switch s {
 	case "from", "to", "end", "at", "in", "do", "then", "else", "max", "min", "fun", "have", "show", "open":
 		return s + "'"
@@ -179,6 +187,12 @@ func (t *tr2) expr(e ast.Expr) (string, string) {
 				return "(decide (" + a + " " + op + " " + b + "))", "bool"
 			}
 		case token.EQL, token.NEQ:
+			if kb == "nil" && ka == "optentry" {
+				if x.Op == token.EQL {
+					return "(" + a + ").isNone", "bool"
+				}
+				return "(" + a + ").isSome", "bool"
+			}
 			if kb == "nil" && (ka == "omap" || ka == "entry" || ka == "log") {
 				// the nil-ness of an interface value is not represented: callers pass a value
 				if x.Op == token.EQL {
@@ -197,6 +211,11 @@ func (t *tr2) expr(e ast.Expr) (string, string) {
 	case *ast.SelectorExpr:
 		if id, ok := x.X.(*ast.Ident); ok && id.Name == t.recv && t.recv != "" && x.Sel.Name == "Entries" {
 			return "lEntries", "omap"
+		}
+		if id, ok := x.X.(*ast.Ident); ok && id.Name == t.recv && t.recv != "" {
+			if k, ok := t.kinds[id.Name+"."+x.Sel.Name]; ok {
+				return leanName(id.Name + "." + x.Sel.Name), k
+			}
 		}
 		if id, ok := x.X.(*ast.Ident); ok && t.kinds[id.Name] == "log" {
 			switch x.Sel.Name {
@@ -307,6 +326,9 @@ func (t *tr2) call(x *ast.CallExpr) (string, string) {
 		rs := selChain(r.Fun)
 		if strings.HasSuffix(rs, ".GetHash") || strings.HasSuffix(rs, ".GetClock") {
 			inner, ki := t.expr(r.Fun.(*ast.SelectorExpr).X)
+			if ki == "optentry" {
+				inner, ki = "("+inner+".getD default)", "entry"
+			}
 			if ki == "entry" && len(r.Args) == 0 {
 				if strings.HasSuffix(rs, ".GetHash") {
 					recv, kr = inner+".hash", "cid"
@@ -419,6 +441,11 @@ func assignedOuter(stmts []ast.Stmt) []string {
 		if id, ok := e.(*ast.Ident); ok && id.Name != "_" && !declared[id.Name] {
 			set[id.Name] = true
 		}
+		if sel, ok := e.(*ast.SelectorExpr); ok {
+			if id, ok := sel.X.(*ast.Ident); ok {
+				set[id.Name+"."+sel.Sel.Name] = true
+			}
+		}
 	}
 	walk = func(stmts []ast.Stmt, outer map[string]bool) {
 		declared := map[string]bool{}
@@ -460,6 +487,9 @@ func assignedOuter(stmts []ast.Stmt) []string {
 					}
 					if sel, ok := c.Fun.(*ast.SelectorExpr); ok && sel.Sel.Name == "Set" {
 						mark(sel.X, declared)
+					}
+					if sel, ok := c.Fun.(*ast.SelectorExpr); ok && (sel.Sel.Name == "addHashToQueue" || sel.Sel.Name == "addHashesToQueue") && len(c.Args) >= 1 {
+						mark(c.Args[0], declared)
 					}
 				}
 			case *ast.IfStmt:
@@ -543,6 +573,9 @@ func (t *tr2) block(stmts []ast.Stmt, fall string, inLoop bool) string {
 	}
 	switch x := st.(type) {
 	case *ast.ReturnStmt:
+		if len(x.Results) == 0 && !inLoop && t.noResult != "" {
+			return t.noResult
+		}
 		if len(x.Results) == 2 && !inLoop && t.partial {
 			// (value, error): an error is `none`
 			if isNil(x.Results[1]) {
@@ -627,6 +660,28 @@ func (t *tr2) block(stmts []ast.Stmt, fall string, inLoop bool) string {
 		c, ok := x.X.(*ast.CallExpr)
 		if !ok {
 			return t.fail(st, "expression statement")
+		}
+		if sc := selChain(c.Fun); t.recv != "" && strings.HasPrefix(sc, t.recv+".mu") && (strings.HasSuffix(sc, ".Lock") || strings.HasSuffix(sc, ".Unlock")) && len(c.Args) == 0 {
+			// locking is not represented here (the regenerated lock and synchronisation facts cover it)
+			return t.block(rest, fall, inLoop)
+		}
+		if sel, ok := c.Fun.(*ast.SelectorExpr); ok && src(t.fset, sel.X) == t.recv && t.recv != "" && len(c.Args) >= 1 {
+			if q, ok := c.Args[0].(*ast.Ident); ok && t.kinds[q.Name] == "queue" {
+				switch {
+				case sel.Sel.Name == "addHashToQueue" && len(c.Args) == 3:
+					// the priority (second argument) is not represented: the model's queue is unordered
+					h, kh := t.expr(c.Args[2])
+					if kh == "hash" {
+						return let(leanName(q.Name), "(add "+leanName(q.Name)+" "+h+")")
+					}
+				case sel.Sel.Name == "addHashesToQueue" && len(c.Args) == 2 && c.Ellipsis != token.NoPos:
+					hs, kh := t.expr(c.Args[1])
+					if kh == "cids" {
+						return let(leanName(q.Name), "(("+hs+").foldl add "+leanName(q.Name)+")")
+					}
+				}
+				return t.fail(st, "queue call")
+			}
 		}
 		if sel, ok := c.Fun.(*ast.SelectorExpr); ok && sel.Sel.Name == "Set" && len(c.Args) == 2 {
 			// m.Set(e.GetHash().String(), e) on an ordered map
@@ -813,6 +868,13 @@ func (t *tr2) assign(x *ast.AssignStmt, rest []ast.Stmt, fall string, inLoop boo
 		return t.fail(x, "map write")
 	}
 	id, ok := x.Lhs[0].(*ast.Ident)
+	if sel, isSel := x.Lhs[0].(*ast.SelectorExpr); isSel && !ok {
+		if r, isId := sel.X.(*ast.Ident); isId && r.Name == t.recv && t.recv != "" {
+			if _, known := t.kinds[r.Name+"."+sel.Sel.Name]; known && x.Tok == token.ASSIGN {
+				id, ok = &ast.Ident{Name: r.Name + "." + sel.Sel.Name}, true
+			}
+		}
+	}
 	if !ok {
 		return t.fail(x, "assignment target")
 	}
@@ -968,7 +1030,8 @@ func hasReturn(stmts []ast.Stmt) bool {
 }
 
 func (t *tr2) rangeStmt(x *ast.RangeStmt, rest []ast.Stmt, fall string, inLoop bool) string {
-	if id, ok := x.Key.(*ast.Ident); !ok || id.Name != "_" || x.Tok != token.DEFINE {
+	if _, ok := x.Key.(*ast.Ident); !ok || x.Tok != token.DEFINE {
+		// (an index variable stays unknown to the translation: any translated use of it fails)
 		return t.fail(x, "range with an index")
 	}
 	v, ok := x.Value.(*ast.Ident)
@@ -1175,20 +1238,51 @@ func (t *tr2) funcDecl(fd *ast.FuncDecl, name string) string {
 	t.recv = ""
 	t.partial = usesSlicing(fd) || (fd.Type.Results != nil && len(fd.Type.Results.List) == 2)
 	var ps, names []string
-	if fd.Recv != nil && len(fd.Recv.List) == 1 && len(fd.Recv.List[0].Names) == 1 {
+	t.noResult = ""
+	if fd.Recv != nil && len(fd.Recv.List) == 1 && len(fd.Recv.List[0].Names) == 1 && typeString(fd.Recv.List[0].Type) == "*Fetcher" {
+		// a method of the fetcher: its integer fields are parameters (and results, when assigned); its queue
+		// operations go through the parameter `add` (insertion into the unordered queue of the model)
+		t.recv = fd.Recv.List[0].Names[0].Name
+		ps = append(ps, "{Q : Type}", "(add : Q → Hash → Q)")
+		for _, fld := range []string{"length", "maxClock", "minClock"} {
+			t.kinds[t.recv+"."+fld] = "int"
+			ps = append(ps, "("+leanName(t.recv+"."+fld)+" : Int)")
+			names = append(names, leanName(t.recv+"."+fld))
+		}
+		names = append([]string{"add"}, names...)
+	} else if fd.Recv != nil && len(fd.Recv.List) == 1 && len(fd.Recv.List[0].Names) == 1 {
 		// a method of the log: the fields it reads are parameters — `Entries` (the entry map) and the
 		// descending less-function sorting.Sort builds from `SortFn`
 		t.recv = fd.Recv.List[0].Names[0].Name
 		ps = append(ps, "(lEntries : List Entry)", "(sortDesc : Entry → Entry → Bool)")
 		names = append(names, "lEntries", "sortDesc")
 	}
+	// entry parameters that the body compares with nil are optional
+	optional := map[string]bool{}
+	ast.Inspect(fd.Body, func(n ast.Node) bool {
+		if be, ok := n.(*ast.BinaryExpr); ok && (be.Op == token.EQL || be.Op == token.NEQ) && isNil(be.Y) {
+			if id, ok := be.X.(*ast.Ident); ok {
+				optional[id.Name] = true
+			}
+		}
+		return true
+	})
 	for _, f := range fd.Type.Params.List {
 		k := kindOfType(f.Type)
+		if k == "ctx" {
+			continue
+		}
 		if k == "" {
 			ps = append(ps, "(_ : "+t.fail(f.Type, "parameter type")+")")
 			continue
 		}
 		for _, n := range f.Names {
+			if k == "entry" && optional[n.Name] {
+				t.kinds[n.Name] = "optentry"
+				ps = append(ps, "("+leanName(n.Name)+" : Option Entry)")
+				names = append(names, leanName(n.Name))
+				continue
+			}
 			t.kinds[n.Name] = k
 			if k == "log" {
 				// another log: the fields that are read are parameters (its entry map and its id)
@@ -1205,13 +1299,34 @@ func (t *tr2) funcDecl(fd *ast.FuncDecl, name string) string {
 	if fd.Type.Results != nil && len(fd.Type.Results.List) >= 1 {
 		ret = leanTypeOfKind[kindOfType(fd.Type.Results.List[0].Type)]
 	}
+	if fd.Type.Results == nil || len(fd.Type.Results.List) == 0 {
+		// no result: the function is what it does to the variables it assigns
+		vars := assignedOuter(fd.Body.List)
+		var tys []string
+		for _, v := range vars {
+			tys = append(tys, leanTypeOfKind[t.kinds[v]])
+		}
+		if len(vars) > 0 {
+			t.noResult = tupleOf(vars)
+			ret = strings.Join(tys, " × ")
+		}
+	}
 	if ret == "" {
 		ret = t.fail(fd.Type, "result type")
 	}
 	if t.partial {
 		ret = "Option (" + ret + ")"
 	}
-	body := t.block(fd.Body.List, "", false)
+	// one line per definition: Lean's layout rule (a continuation line must start to the right of the
+	// enclosing `let`) would otherwise reject nested multi-line values
+	body := strings.Join(strings.Fields(t.block(fd.Body.List, t.noResult, false)), " ")
+	for i, l := range t.loops {
+		parts := strings.SplitN(l, "  | fuel + 1, ", 2)
+		if len(parts) == 2 {
+			hd := strings.SplitN(parts[1], " =>\n", 2)
+			t.loops[i] = parts[0] + "  | fuel + 1, " + hd[0] + " =>\n    " + strings.Join(strings.Fields(hd[1]), " ") + "\n"
+		}
+	}
 	fuel := ""
 	if t.usesFuel {
 		fuel = "(fuel : Nat) "
@@ -1241,6 +1356,7 @@ func renderSlices(repo string) string {
 		{"log_io.go", []string{"entryLastN", "entryLastNKeeping", "entrySliceRange"}},
 		{"entry/utils.go", []string{"Difference", "FindHeads"}},
 		{"entry/entry.go", []string{"uniqueCIDs"}},
+		{"entry/fetcher.go", []string{"updateClock", "addNextEntry"}},
 	} {
 		f, err := parser.ParseFile(t.fset, filepath.Join(repo, j.file), nil, parser.SkipObjectResolution)
 		if err != nil {
